@@ -69,7 +69,13 @@ def run(ctx: Ctx) -> None:
         ctx.check("C01.R2", w11, f"Request.{k}", v is not None and pred(v), f"Request.{k} is built from {norm(v)}", rq)
     hv = kwarg(rq, "headers")
     hdefs = [(norm(n.value), sorted(guard_atoms(n))) for n in walk_local(cs11) if isinstance(n, ast.Assign) and dotted(n.targets[0]) == "headers"]
-    ok = norm(hv) == "headers" and sorted(hdefs) == sorted([("request.headers.raw_items()", [("self.config.h11_pass_raw_headers", True)]), ("list(request.headers)", [("self.config.h11_pass_raw_headers", False)])])
+    from ..astq import expand_locals as _xl
+
+    if isinstance(hv, ast.IfExp):
+        hpairs = {norm(hv.body): norm(_xl(hv.test, cs11)), norm(hv.orelse): "not " + norm(_xl(hv.test, cs11))}
+    else:
+        hpairs = {v_: ("" if g_ and g_[0][1] else "not ") + g_[0][0] for v_, g_ in hdefs if len(g_) == 1} if norm(hv) == "headers" else {}
+    ok = hpairs == {"request.headers.raw_items()": "self.config.h11_pass_raw_headers", "list(request.headers)": "not self.config.h11_pass_raw_headers"}
     ctx.check("C01.R2", w11, "Request.headers <- list(request.headers) | raw_items() iff h11_pass_raw_headers", ok, f"headers defined as {hdefs}", rq)
     hcall = [c for c in calls(cs11) if call_name(c) == "self.stream.handle"]
     ok = len(hcall) == 1 and hcall[0].args and hcall[0].args[0] is rq and isinstance(getattr(hcall[0], "_parent", None), ast.Await) and not guard_atoms(hcall[0])
@@ -101,7 +107,8 @@ def run(ctx: Ctx) -> None:
         got = [norm(a) for a in c.args]
         want = ["self.app", "self.config", "self.context", "self.task_group", "self.ssl", "self.client", "self.server", "self.stream_send", "request.stream_id"]
         ctx.check("C01.R2", w2, f"{call_name(c)}(..., stream_send, request.stream_id)", got == want, f"constructed with {got}", c)
-    hcall = [c for c in calls(cs2) if norm(c.func) == "self.streams[request.stream_id].handle"]
+    stored = {norm(n.value) for n in walk_local(cs2) if isinstance(n, ast.Assign) and norm(n.targets[0]) == "self.streams[request.stream_id]" and isinstance(n.value, ast.Name)}
+    hcall = [c for c in calls(cs2) if isinstance(c.func, ast.Attribute) and c.func.attr == "handle" and (norm(c.func.value) == "self.streams[request.stream_id]" or norm(c.func.value) in stored)]
     ok = len(hcall) == 1 and hcall[0].args and hcall[0].args[0] is rq2 and isinstance(getattr(hcall[0], "_parent", None), ast.Await) and not guard_atoms(hcall[0])
     ctx.check("C01.R2", w2, "the Request event is handed to the stream registered under its id", ok, "the request head must reach the stream created for this stream id", hcall[0] if hcall else cs2)
 
